@@ -62,11 +62,14 @@ IStep(st, order, dtc, q) ==
 
 \* _compute_sweep_dt_tol with a given dt (the tolerance route only chooses another number for dt).
 \* A queued fraction is relative to _dt: changing _dt rescales what it will apply.
-SetDt(st, dtc) ==
+\* (FixQ = TRUE models the repair that rescales the stored fraction so that the queued duration is kept)
+SetDtQ(st, dtc, fixq) ==
   LET new == IF dtc = DtNone THEN st.dt0 ELSE dtc IN
+  IF fixq THEN [st EXCEPT !.sdt = new] ELSE
   [st EXCEPT !.sdt = new,
              !.queue = IF @ = <<>> \/ st.sdt = DtNone \/ st.sdt = new THEN @
                        ELSE <<@[1], <<(@[2][1] * new) \div st.sdt, (@[2][2] * new) \div st.sdt>> >>]
+SetDt(st, dtc) == SetDtQ(st, dtc, FALSE)
 RescaleExact(st, dtc) ==
   LET new == IF dtc = DtNone THEN st.dt0 ELSE dtc IN
   IF st.queue = <<>> \/ st.sdt = DtNone \/ st.sdt = new THEN TRUE
@@ -76,9 +79,10 @@ RescaleExact(st, dtc) ==
 RECURSIVE IUpdLoop(_, _, _)
 IUpdLoop(st, T, order) ==
   IF st.t < T - st.sdt THEN IUpdLoop(IStep(st, order, DtNone, TRUE), T, order) ELSE st
-IUpdateTo(st, T, dtc, order) ==
-  LET s1 == IUpdLoop(SetDt(st, dtc), T, order)
+IUpdateToQ(st, T, dtc, order, fixq) ==
+  LET s1 == IUpdLoop(SetDtQ(st, dtc, fixq), T, order)
   IN  IStep(s1, order, T - s1.t, FALSE)
+IUpdateTo(st, T, dtc, order) == IUpdateToQ(st, T, dtc, order, FALSE)
 
 \* TEBD.at_times(ts, dt, order): ts sorted, dt fixed once, update_to for each
 SortTs(s) ==
@@ -88,8 +92,13 @@ SortTs(s) ==
 RECURSIVE IAtLoop(_, _, _, _)
 IAtLoop(st, ts, dt, order) ==
   IF ts = <<>> THEN st ELSE IAtLoop(IUpdateTo(st, Head(ts), dt, order), Tail(ts), dt, order)
-IAtTimes(st, ts, dtc, order) ==
-  LET s1 == SetDt(st, dtc) IN IAtLoop(s1, SortTs(ts), s1.sdt, order)
+IAtTimesQ(st, ts, dtc, order, fixq) ==
+  LET s1 == SetDtQ(st, dtc, fixq) IN IAtLoop(s1, SortTs(ts), s1.sdt, order)
+IAtTimes(st, ts, dtc, order) == IAtTimesQ(st, ts, dtc, order, FALSE)
+
+\* a direct public TEBD.sweep(direction, dt_frac, dt, queue): frac in halves (1 = 0.5, 2 = 1.0); time is not advanced
+IPubSweep(st, d, fp, dtc, q) ==
+  ISweep(st, d, CMulInt(<<fp, 0>>, IF dtc = DtNone THEN st.sdt ELSE dtc), q)
 
 (* ------------------- what a sweep does to the chain --------------------- *)
 \* the `where` pairs gated by one sweep, in order (first entry = site passed first to gate_split_)
